@@ -1,3 +1,4 @@
+#![allow(unexpected_cfgs)]
 #[macro_use]
 mod error;
 mod aggregator;
@@ -11,6 +12,8 @@ mod messages;
 mod proposer;
 mod synchronizer;
 mod timer;
+#[cfg(hotstuff_verif)]
+pub mod verif;
 
 #[cfg(test)]
 #[path = "tests/common.rs"]
@@ -19,3 +22,18 @@ mod common;
 pub use crate::config::{Committee, Parameters};
 pub use crate::consensus::Consensus;
 pub use crate::messages::{Block, QC, TC};
+
+/// Otherwise private items, re-exported for the verification harness only.
+#[cfg(hotstuff_verif)]
+pub mod verif_export {
+    pub use crate::aggregator::Aggregator;
+    pub use crate::consensus::{ConsensusMessage, Round};
+    pub use crate::core::Core;
+    pub use crate::error::{ConsensusError, ConsensusResult};
+    pub use crate::helper::Helper;
+    pub use crate::leader::LeaderElector;
+    pub use crate::mempool::MempoolDriver;
+    pub use crate::messages::{Timeout, Vote};
+    pub use crate::proposer::{Proposer, ProposerMessage};
+    pub use crate::synchronizer::Synchronizer;
+}
